@@ -563,7 +563,8 @@ def search_stream(run):
 
 PROPS['C20'] = {
     'modules': ['IpcModel.Props.C20'],
-    'theorems': ['C20.C20_msg_forward', 'C20.C20_isolation', 'C20.C20_closed_ends', 'C20.C20_unknown_ignored'],
+    'theorems': ['C20.C20_forward', 'C20.C20_registration', 'C20.C20_inv_init', 'C20.C20_inv_step', 'C20.C20_msg_forward', 'C20.C20_isolation',
+                 'C20.C20_closed_ends', 'C20.C20_unknown_ignored', 'Async.events_forward', 'Async.drain_spec'],
     'builds': ['async'],
     'scenarios': stream_scen(240, 6000),
     'search': search_stream,
@@ -576,10 +577,11 @@ PROPS['C20'] = {
                     'closure and ignored wake-ups proved as one-step theorems; real streams compared per stream with the model'),
     'assumptions': ['futures::mpsc unbounded channels are FIFO, wake the receiving task on send and on drop of the last sender (trusted; exercised by the counting waker)',
                     'the receiver set feeding the routing thread satisfies C06'],
-    'level_text': ('Kernel-checked one-step theorems for the routing thread (a message event is appended to exactly the stream registered for its id, other streams untouched, '
-                   'closure ends exactly that stream, wake-ups ignored); real IpcStreams created from many threads compared per stream with the executable model and checked '
-                   'for exactly-once, order, wake-up of the polling task and end-of-stream iff no sender remains'),
-    'level_note': 'Trusted: Lean kernel, harness; futures mpsc and waker delivery; end-to-end induction over histories is being extended (see DESIGN)',
+    'level_text': ('Kernel-checked for every history of routing-thread iterations, route offers and arbitrary other traffic: the stream registered for a receiver-set id '
+                   'receives exactly that id\'s messages, once, in order, and ends exactly at its closure; no other event touches it; an offered route is registered by the next '
+                   'iteration under a fresh id (invariant proved inductive from the initial state); real IpcStreams created from many threads compared per stream with the '
+                   'executable model and checked for wake-up of the polling task and end-of-stream iff no sender remains'),
+    'level_note': 'Trusted: Lean kernel, harness; futures mpsc and waker delivery, and the receiver-set contract (C06) feeding the routing thread, are assumptions of the theorem',
 }
 
 
